@@ -367,23 +367,7 @@ class SubjectAnalysis:
                 depth -= 1
         return False
 
-    def _stable_storage(self, S, short, f, deliver):
-        """RE.5: what the delivery loop reads out of m_observers' own storage (through an address / iterator taken before the callbacks
-        ran) is still there: a callback may erase *other* entries, which leaves the remaining ones in place only in a node-based
-        container"""
-        cls = self.facts.cls(S) or {}
-        of = next((x for x in cls.get('fields', []) if x['name'] == OBS), None)
-        if of is None: return
-        ct = of['ctype']
-        m = re.match(r'std::(?:__cxx11::)?(\w+)<(.*)', ct)
-        kind = m.group(1) if m else ''
-        elem = _split_targs(ct[ct.index('<') + 1:ct.rindex('>')])[0].strip() if '<' in ct else ''
-        ename = elem.split('::')[-1]
-        if not ename: return
-        body = deliver.n('body') or deliver
-        def into_storage(x):
-            t = (x.type or '').replace('const ', '').strip()
-            return (t.endswith('*') and t.rstrip('* ').split('::')[-1] == ename) or ('_iterator<' in t and ename in t) or ('iterator' in t.lower() and ename in t and not t.endswith('*') and 'std::' in t)
+    def _origin_fn(self, S, f):
         inits = {}
         for g_ in [f] + [h for h in self.facts.fns if h.d.get('classfull') == S and h is not f]:
             for n_ in g_.nodes():
@@ -414,6 +398,26 @@ class SubjectAnalysis:
                 a_ = [a for a in x.ns('args') if a is not None]
                 return origin(a_[0], depth + 1) if a_ else None
             return None
+        return origin
+
+    def _stable_storage(self, S, short, f, deliver):
+        """RE.5: what the delivery loop reads out of m_observers' own storage (through an address / iterator taken before the callbacks
+        ran) is still there: a callback may erase *other* entries, which leaves the remaining ones in place only in a node-based
+        container"""
+        cls = self.facts.cls(S) or {}
+        of = next((x for x in cls.get('fields', []) if x['name'] == OBS), None)
+        if of is None: return
+        ct = of['ctype']
+        m = re.match(r'std::(?:__cxx11::)?(\w+)<(.*)', ct)
+        kind = m.group(1) if m else ''
+        elem = _split_targs(ct[ct.index('<') + 1:ct.rindex('>')])[0].strip() if '<' in ct else ''
+        ename = elem.split('::')[-1]
+        if not ename: return
+        body = deliver.n('body') or deliver
+        def into_storage(x):
+            t = (x.type or '').replace('const ', '').strip()
+            return (t.endswith('*') and t.rstrip('* ').split('::')[-1] == ename) or ('_iterator<' in t and ename in t) or ('iterator' in t.lower() and ename in t and not t.endswith('*') and 'std::' in t)
+        origin = self._origin_fn(S, f)
         uses = []; unknown_uses = []
         for x in body.walk():
             b_ = None
@@ -478,7 +482,12 @@ class SubjectAnalysis:
         ty = ((x.type if x is not None else '') or '').replace('const ', '')
         inst = f'{short}::notify: the round owns the observer it is calling'
         if ty.startswith('std::shared_ptr<'):
-            self.add('RE.2', True, inst + f' ({ty[:60]})', c.shortloc(), key='RE.2|owning-snapshot')
+            where = self._origin_fn(S, g)(x) if (g is not None and x is not None and x.k == 'member') else None
+            if where == 'member':
+                self.add('RE.2', False, inst, c.shortloc(), f'the observer is called through `{x.text()[:40]}`, the shared_ptr stored in m_observers itself (no copy is held by the round): a callback that unsubscribes this observer '
+                         f'destroys the list entry and with it the observer whose member function is running (use after free)', key='RE.2|owning-snapshot')
+            else:
+                self.add('RE.2', True, inst + f' ({ty[:60]})', c.shortloc(), key='RE.2|owning-snapshot')
         elif ty.rstrip().endswith('*') and 'Observer<' in ty:
             self.add('RE.2', False, inst, c.shortloc(), f'the observer is reached through `{ty}`: a callback that unsubscribes it (or itself) destroys the object while its member function runs / before `isValid()` is called on it (use after free)', key='RE.2|owning-snapshot')
         else:
